@@ -243,6 +243,13 @@ def specs(tier: str) -> list[Spec]:
     sp.append(Spec("fan(2,2)/2x", {"family": "fan", "resumes": 2}, lambda: wf_fan(2, 2), resume=True, resume_count=2, max_dev=(4 if q else None)))
     # order-sensitive single-worker queue
     sp.append(Spec("order(3)", {"family": "order"}, lambda: wf_order(3), resume=True))
+    # the client looks at the running context (ctx.to_dict()) once or twice before it pauses the run
+    sp.append(Spec("fan(3,2)/peek", {"family": "fan", "peeks": 1}, lambda: wf_fan(3, 2), resume=True, peeks=1, max_dev=(3 if q else 5)))
+    sp.append(Spec("fan(2,2)/peek", {"family": "fan", "peeks": 1}, lambda: wf_fan(2, 2), resume=True, peeks=1, max_dev=(4 if q else None)))
+    if not q:
+        sp.append(Spec("fan(3,2)/peek2", {"family": "fan", "peeks": 2}, lambda: wf_fan(3, 2), resume=True, peeks=2, max_dev=5))
+        sp.append(Spec("fan_retry(2,2,zero)/peek", {"family": "fan_retry", "peeks": 1}, lambda: wf_fan(2, 2, "zero", fail_uids=(0,)), resume=True, peeks=1, max_dev=5))
+        sp.append(Spec("wait(w=2,n=2)/peek", {"family": "wait", "peeks": 1}, lambda: wf_wait(2, n=2), scripts=resp_scripts(2), resume=True, peeks=1, max_dev=4))
     # the run is paused with handler.cancel_run() and the context of the CANCELLED run is serialized
     for name, fam, mk, kw in (("order(3)", "order", lambda: wf_order(3), {}), ("fan(2,1)", "fan", lambda: wf_fan(2, 1), {}),
                               ("fan(3,2)", "fan", lambda: wf_fan(3, 2), {"max_dev": 3 if q else None}),
@@ -297,7 +304,7 @@ def programs(tier: str) -> list[Program]:
 RULE = ("deterministic workflows (chain with store writes, fan-out/fan-in, retry with zero/positive delay incl. "
         "exhaustion, catch_error recovery budgets, waits answered externally, an order-sensitive single-worker queue) x every schedule x one "
         "ctx.to_dict()->JSON->Context.from_dict resume at every quiescent point (the context of the running run, then a hard stop; or "
-        "handler.cancel_run() first and the context of the cancelled run); result, state store, retry numbers "
+        "handler.cancel_run() first and the context of the cancelled run; optionally the running context is read once or twice before the pause); result, state store, retry numbers "
         "of re-executed invocations, total executions and round-trip stability are compared with the uninterrupted "
         "runs (all of which are first shown to agree); non-trivial = the snapshot is taken after at least one "
         "other action, i.e. at least one deviation")
